@@ -34,6 +34,8 @@ pub enum Family {
     Lpg,
     Rdf,
     Txm,
+    /// BufferManager grants against a budget that fits k-1 of k requests
+    Buffer,
 }
 
 #[derive(Clone, Debug, PartialEq, Eq, Serialize, Deserialize)]
@@ -60,6 +62,12 @@ pub enum SOp {
     // --- TransactionManager --- one op = begin, write all entities, commit
     TxWriteCommit(Vec<u8>),
     TxGc,
+    // --- BufferManager ---
+    BufAlloc(usize),
+    /// drops the oldest grant this thread still holds
+    BufRelease,
+    /// resizes the newest grant this thread holds
+    BufResize(usize),
 }
 
 impl SOp {
@@ -82,6 +90,9 @@ impl SOp {
             SOp::RdfFind(_) => "rdf_find",
             SOp::TxWriteCommit(_) => "tx_write_commit",
             SOp::TxGc => "tx_gc",
+            SOp::BufAlloc(_) => "try_allocate",
+            SOp::BufRelease => "grant_drop",
+            SOp::BufResize(_) => "grant_resize",
         }
     }
     fn is_read(&self) -> bool {
@@ -124,6 +135,12 @@ enum World {
     Lpg { store: LpgStore, nodes: Vec<NodeId>, edges: Vec<EdgeId> },
     Rdf { store: RdfStore },
     Txm { mgr: TransactionManager, clock: AtomicU64 },
+    Buf {
+        mgr: Arc<grafeo_common::memory::buffer::BufferManager>,
+        grants: Vec<std::sync::Mutex<Vec<grafeo_common::memory::buffer::MemoryGrant>>>,
+        max_seen: AtomicU64,
+        hard_limit: usize,
+    },
 }
 
 fn setup(sc: &Scenario) -> World {
@@ -155,6 +172,15 @@ fn setup(sc: &Scenario) -> World {
             World::Rdf { store }
         }
         Family::Txm => World::Txm { mgr: TransactionManager::new(), clock: AtomicU64::new(0) },
+        Family::Buffer => {
+            let mgr = grafeo_common::memory::buffer::BufferManager::with_budget(100);
+            World::Buf {
+                mgr,
+                grants: (0..sc.threads.len()).map(|_| std::sync::Mutex::new(Vec::new())).collect(),
+                max_seen: AtomicU64::new(0),
+                hard_limit: 95,
+            }
+        }
     }
 }
 
@@ -238,6 +264,46 @@ fn apply(w: &World, t: usize, j: usize, op: &SOp, created: &std::sync::Mutex<BTr
         (World::Txm { mgr, .. }, SOp::TxGc) => {
             let _ = mgr.gc();
             "read".into()
+        }
+        (World::Buf { mgr, grants, max_seen, .. }, op @ (SOp::BufAlloc(_) | SOp::BufRelease | SOp::BufResize(_))) => {
+            use grafeo_common::memory::buffer::MemoryRegion;
+            let r = match op {
+                SOp::BufAlloc(size) => match mgr.try_allocate(*size, MemoryRegion::ExecutionBuffers) {
+                    Some(g) => {
+                        grants[t].lock().unwrap().push(g);
+                        "granted".to_string()
+                    }
+                    None => "refused".to_string(),
+                },
+                SOp::BufRelease => {
+                    let g = {
+                        let mut v = grants[t].lock().unwrap();
+                        if v.is_empty() { None } else { Some(v.remove(0)) }
+                    };
+                    match g {
+                        Some(g) => {
+                            drop(g);
+                            "released".to_string()
+                        }
+                        None => "nothing".to_string(),
+                    }
+                }
+                SOp::BufResize(size) => {
+                    let g = grants[t].lock().unwrap().pop();
+                    match g {
+                        Some(mut g) => {
+                            let ok = g.resize(*size);
+                            grants[t].lock().unwrap().push(g);
+                            format!("resize:{ok}")
+                        }
+                        None => "nothing".to_string(),
+                    }
+                }
+                _ => unreachable!(),
+            };
+            // the accounting is sampled inside every thread after every operation
+            max_seen.fetch_max(mgr.allocated() as u64, Ordering::SeqCst);
+            r
         }
         _ => "n/a".into(),
     }
@@ -439,6 +505,30 @@ fn final_dump(w: &World, created: &BTreeMap<u64, String>) -> (String, Vec<(Strin
             (format!("triples\x1e{}\x1fcounts\x1e{}:{}/{}/{}/{}\x1findexes\x1e{}", set.join(" "), store.len(), st.triple_count, st.subject_count, st.predicate_count, st.object_count, derived.join(" ")), inv)
         }
         World::Txm { .. } => (String::new(), inv),
+        World::Buf { mgr, grants, max_seen, hard_limit } => {
+            let held: usize = grants.iter().map(|g| g.lock().unwrap().iter().map(|x| x.size()).sum::<usize>()).sum();
+            let allocated_now = mgr.allocated();
+            let st = mgr.stats();
+            let regions: usize = st.region_allocated.iter().sum();
+            for g in grants {
+                g.lock().unwrap().clear();
+            }
+            let after_release = mgr.allocated();
+            let over = max_seen.load(Ordering::SeqCst) as usize > *hard_limit || allocated_now > *hard_limit;
+            if over {
+                inv.push(("allocated-exceeds-hard-limit".into(), format!("max allocated() seen {} > hard limit {hard_limit}", max_seen.load(Ordering::SeqCst))));
+            }
+            if allocated_now != held {
+                inv.push(("allocated-vs-grants-held".into(), format!("allocated() {allocated_now} vs sum of live grants {held}")));
+            }
+            if regions != allocated_now {
+                inv.push(("regions-vs-total".into(), format!("sum of regions {regions} vs total {allocated_now}")));
+            }
+            if after_release != 0 {
+                inv.push(("accounting-not-zero-after-release".into(), format!("allocated() = {after_release} after all grants were dropped")));
+            }
+            (format!("held\x1e{held}\x1fover_limit\x1e{over}\x1fafter_release\x1e{after_release}"), inv)
+        }
     }
 }
 
@@ -574,6 +664,15 @@ fn run_schedule(sc: &Arc<Scenario>, sched: Box<dyn Scheduler + Send>) -> ExecOut
             let created = Arc::new(std::sync::Mutex::new(BTreeMap::new()));
             let results = Arc::new(std::sync::Mutex::new(BTreeMap::new()));
             let guard = simlock::enter();
+            grafeo_common::verif::install(Some(grafeo_common::verif::Hooks {
+                fs_event: None,
+                clock_ns: None,
+                yield_point: Some(Box::new(|_name| {
+                    if !std::thread::panicking() {
+                        shuttle::thread::sleep(std::time::Duration::ZERO);
+                    }
+                })),
+            }));
             let mut handles = Vec::new();
             for (t, ops) in sc2.threads.iter().enumerate() {
                 let (w, created, results, ops) = (w.clone(), created.clone(), results.clone(), ops.clone());
@@ -588,6 +687,7 @@ fn run_schedule(sc: &Arc<Scenario>, sched: Box<dyn Scheduler + Send>) -> ExecOut
                 h.join().unwrap();
             }
             let (acq, cont) = guard.stats();
+            grafeo_common::verif::install(None);
             drop(guard);
             let created = created.lock().unwrap().clone();
             let (dump, inv) = final_dump(&w, &created);
@@ -595,6 +695,7 @@ fn run_schedule(sc: &Arc<Scenario>, sched: Box<dyn Scheduler + Send>) -> ExecOut
         });
     });
     simlock::force_leave();
+    grafeo_common::verif::install(None);
     let steps = steps.lock().unwrap().clone();
     match (r, shared.lock().unwrap().take()) {
         (Ok(()), Some((results, dump, invariants, lock_points, contended))) => ExecOutcome { steps, crashed: None, results, dump, invariants, lock_points, contended },
@@ -627,6 +728,7 @@ fn judge(sc: &Scenario, refs: &BTreeSet<String>, ex: &ExecOutcome, prop: &str) -
         Family::Lpg => "lpg",
         Family::Rdf => "rdf",
         Family::Txm => "txm",
+        Family::Buffer => "buffer",
     };
     let mut out = Vec::new();
     if let Some(msg) = &ex.crashed {
@@ -640,8 +742,13 @@ fn judge(sc: &Scenario, refs: &BTreeSet<String>, ex: &ExecOutcome, prop: &str) -
         out.push((format!("{prop} | {fam} | {class}"), msg.clone()));
         return out;
     }
+    if sc.family == Family::Buffer {
+        for (n, d) in &ex.invariants {
+            out.push((format!("{prop} | {fam} | {n}"), d.clone()));
+        }
+    }
     match sc.family {
-        Family::Lpg | Family::LpgCore | Family::Rdf => {
+        Family::Lpg | Family::LpgCore | Family::Rdf | Family::Buffer => {
             // ids unique
             let mut ids: BTreeSet<&String> = BTreeSet::new();
             for r in ex.results.values() {
@@ -769,6 +876,11 @@ pub fn generate(rng: &mut Prng, family: Family) -> Scenario {
                         _ => SOp::RdfFind(t),
                     }
                 }
+                Family::Buffer => match rng.below(6) {
+                    0 | 1 | 2 => SOp::BufAlloc(*rng.pick(&[30usize, 40, 50, 60, 95])),
+                    3 | 4 => SOp::BufRelease,
+                    _ => SOp::BufResize(*rng.pick(&[10usize, 50, 90])),
+                },
                 Family::Txm => {
                     if rng.chance(1, 6) {
                         SOp::TxGc
